@@ -27,6 +27,8 @@ fn jobs(plan: &Plan) -> Vec<Job> {
     let mut v = entry_jobs(plan, "C10", "reserve", t.pick(40, 400, 1), |_| true);
     v.extend(entry_jobs(plan, "C10", "merge", t.pick(48, 500, 1), |_| true));
     v.extend(stack_jobs(plan, "C10", "stack-presize", t.pick(12, 100, 0), |_| true));
+    v.extend(entry_jobs(plan, "C10", "chain", t.pick(32, 300, 1), |d| super::chain::eligible(d, super::chain::Fin::Presize)));
+    v.extend(stack_jobs(plan, "C10", "stack-chain", t.pick(6, 50, 0), |d| super::chain::eligible_stack(d, super::chain::Fin::Presize)));
     v
 }
 
@@ -50,10 +52,23 @@ fn required(plan: &Plan) -> Vec<String> {
     v.push("merge:ancestor".into());
     v.push("merge:chain".into());
     v.push("merge:source-ends-in-first-item".into());
+    for d in plan.reg {
+        if super::chain::eligible(d, super::chain::Fin::Presize) {
+            v.push(format!("chain:{}", d.label));
+        }
+        if super::chain::eligible_stack(d, super::chain::Fin::Presize) {
+            v.push(format!("stack-chain:{}", d.label));
+        }
+    }
+    v.push("next-generation".into());
+    v.extend(super::chain::required_pairs(super::chain::Fin::Presize));
     v
 }
 
 pub fn run<E: Entry>(ctx: &mut Ctx) {
+    if ctx.what == "chain" {
+        return super::chain::run::<E>(ctx, super::chain::Fin::Presize, "presize-chain");
+    }
     match ctx.what.as_str() {
         "reserve" => reserve_twin::<E>(ctx),
         _ => merge_twin::<E>(ctx),
@@ -240,6 +255,9 @@ fn merge_twin<E: Entry>(ctx: &mut Ctx) {
 }
 
 pub fn run_stack<E: Entry, S: IdxC<Idx<E>>>(ctx: &mut Ctx) {
+    if ctx.what == "stack-chain" {
+        return super::chain::run_stack::<E, S>(ctx, super::chain::Fin::Presize, "stack-presize-chain");
+    }
     let kind = kind_for(ctx.hist_no / 3);
     let pool: Vec<E::V> = <E::V as Val>::gen_run(&mut ctx.rng, Dom::new(kind), 20);
     let nforms = E::form_names().len();
